@@ -8,6 +8,15 @@ Two-stage rule taken from the Functor docstring: arguments bound at
 construction are kept; call-time positionals are matched from position 0
 again; giving a new value to an already bound argument is a TypeError unless
 `override_args=True`, in which case the call-time value wins.
+
+Ways of making the symbolic callable: the six function wrappers, the four
+class wrappers and three ways of writing a *subclassed* functor
+(`class F(pg.Functor)` with a `_call` method: annotated fields, int-annotated
+fields, `pg.members`).  Argument values: distinct ints, plus the value classes
+None / falsy (0, False, '', 0.0, []) / equal to the parameter's default / a
+value that makes the body raise.  A failure seen only with a subclassed
+functor (the same case passes with `pg.functor` of the same signature) gets
+the id prefix `subclassed-functor.`; otherwise the prefix is `functor.`.
 """
 import inspect
 import itertools
@@ -29,22 +38,30 @@ POS = ['a', 'b', 'c']
 class Sig:
   """One signature shape."""
 
-  def __init__(self, n, ndef, va, kwo, vk, annotated=False):
+  def __init__(self, n, ndef, va, kwo, vk, annotated=False, dflavor='int'):
     self.n, self.ndef, self.va, self.kwo, self.vk = n, ndef, va, tuple(kwo), vk
     self.annotated = annotated
+    self.dflavor = dflavor          # 'int' | 'None' | 'falsy': what the defaults are
     self.pos = POS[:n]
     self.kwonly = [f'k{j + 1}' for j in range(len(kwo))]
     self.names = self.pos + self.kwonly
+    self.defaults = {}
+    for i, nm in enumerate(self.pos):
+      if i >= n - ndef:
+        self.defaults[nm] = self._default(i, -(i + 1))
+    for j, d in enumerate(kwo):
+      if d:
+        self.defaults[f'k{j + 1}'] = self._default(n + j, -(10 + j))
     ann = ': int' if annotated else ''
     parts = []
-    for i, nm in enumerate(self.pos):
-      parts.append(f'{nm}{ann}' if i < n - ndef else f'{nm}{ann}={-(i + 1)}')
+    for nm in self.pos:
+      parts.append(f'{nm}{ann}' + (f'={self.defaults[nm]!r}' if nm in self.defaults else ''))
     if va:
       parts.append(f'*args{ann}')
     elif kwo:
       parts.append('*')
-    for j, d in enumerate(kwo):
-      parts.append(f'k{j + 1}{ann}' + (f'={-(10 + j)}' if d else ''))
+    for nm in self.kwonly:
+      parts.append(f'{nm}{ann}' + (f'={self.defaults[nm]!r}' if nm in self.defaults else ''))
     if vk:
       parts.append(f'**kw{ann}')
     self.params = ', '.join(parts)
@@ -52,31 +69,90 @@ class Sig:
            + (['tuple(sorted(kw.items()))'] if vk else []))
     self.ret = '(' + ', '.join(ret) + ',)'
     self.id = (f'n{n}d{ndef}' + ('v' if va else '') + 'k' + ''.join('d' if d else 'r' for d in kwo)
-               + ('w' if vk else '') + ('t' if annotated else ''))
+               + ('w' if vk else '') + ('t' if annotated else '')
+               + ('' if dflavor == 'int' else '~' + dflavor))
+
+  def _default(self, idx, int_value):
+    if self.dflavor == 'None':
+      return None
+    if self.dflavor == 'falsy':
+      return (0, '', False)[idx % 3]
+    return int_value
+
+  def ctor_src(self):
+    return (f'm.Sig({self.n}, {self.ndef}, {self.va}, {self.kwo!r}, {self.vk}, '
+            f'{self.annotated}, {self.dflavor!r})')
+
+  def typed(self, annotated):
+    if annotated == self.annotated:
+      return self
+    return Sig(self.n, self.ndef, self.va, self.kwo, self.vk, annotated, self.dflavor)
+
+  # The body returns every argument it received; a string argument 'boom'
+  # makes it raise ValueError (errors of the body must propagate unchanged).
+  _BODY = '{ind}r_ = {ret}\n{ind}if "\'boom\'" in repr(r_): raise ValueError("boom")\n'
 
   def fn_src(self, name=None):
-    return f'def {name or "f_" + self.id}({self.params}):\n  return {self.ret}\n'
+    return (f'def {name or "f_" + self.id}({self.params}):\n'
+            + self._BODY.format(ind='  ', ret=self.ret) + '  return r_\n')
 
   def cls_src(self, name=None):
     return (f'class {name or "C_" + self.id}:\n  def __init__(self, {self.params}):\n'
-            f'    self.r = {self.ret}\n')
+            + self._BODY.format(ind='    ', ret=self.ret) + '    self.r = r_\n')
+
+  def subclass_src(self, name, style):
+    """A subclassed functor computing the same thing as fn_src (no *args)."""
+    assert not self.va
+    t = 'int' if self.annotated else 'Any'
+    lines = []
+    if style == 'pg.members':
+      vs = 'pg.typing.Any'
+      fields = [f"('{nm}', {vs}(" + (f'default={self.defaults[nm]!r}' if nm in self.defaults else '') + '))'
+                for nm in self.names]
+      if self.vk:
+        fields.append(f'(pg.typing.StrKey(), {vs}())')
+      lines.append(f'@pg.members([{", ".join(fields)}], init_arg_list={self.pos!r})')
+      lines.append(f'class {name}(pg.Functor):')
+    else:
+      if self.kwonly:
+        lines.append(f'@pg.use_init_args({self.pos!r})')
+      lines.append(f'class {name}(pg.Functor):')
+      for nm in self.names:
+        lines.append(f'  {nm}: {t}' + (f' = {self.defaults[nm]!r}' if nm in self.defaults else ''))
+      if self.vk:
+        lines.append(f'  __kwargs__: {t}')
+    lines.append('  def _call(self):')
+    if self.names:
+      lines.append('    ' + ', '.join(self.names) + ', = ' + ', '.join(f'self.{nm}' for nm in self.names) + ',')
+    if self.vk:
+      # Extra keyword arguments: bound ones are attributes, call-time ones are
+      # visible through sym_inferred; 'y' and 'z' are the extra names the driver uses.
+      lines.append("    kw = {k_: self.sym_inferred(k_) for k_ in ('y', 'z') "
+                   "if self.sym_inferred(k_, Any) is not Any}")
+    lines.append(self._BODY.format(ind='    ', ret=self.ret) + '    return r_')
+    return '\n'.join(lines) + '\n'
 
   def features(self):
     return ('v' if self.va else '') + ('k' if self.kwo else '') + ('w' if self.vk else '')
 
 
-def all_sigs(annotated=False):
+def all_sigs(annotated=False, dflavor='int'):
   out = []
   for n in range(4):
     for ndef in range(n + 1):
       for va in (False, True):
         for kwo in [(), (False,), (True,), (False, True), (True, False)]:
           for vk in (False, True):
-            out.append(Sig(n, ndef, va, kwo, vk, annotated))
+            out.append(Sig(n, ndef, va, kwo, vk, annotated, dflavor))
   return out
 
 
-# Wrapper kinds: name -> (is_class, source template using {f} for the original).
+def flavored_sigs():
+  """Signatures with at least one default, defaults being None / falsy values."""
+  return [s for fl in ('None', 'falsy') for s in all_sigs(dflavor=fl) if s.defaults]
+
+
+# Ways of symbolizing a function: name -> source template using {f} for the original.
 FN_WRAPPERS = {
     'pg.functor': 'pg.functor({f})',
     'pg.functor(spec)': 'pg.functor({spec})({f})',
@@ -85,12 +161,43 @@ FN_WRAPPERS = {
     'functor_class': 'pg.symbolic.functor_class({f}, add_to_registry=True)',
     'pg.functor(auto_typing)': 'pg.functor(auto_typing=True)({f})',
 }
+# Ways of writing the same computation as a subclassed functor: name -> (style, int-typed).
+SUBCLASS_KINDS = {
+    'subclass(annotations)': ('annotations', False),
+    'subclass(int-annotations)': ('annotations', True),
+    'subclass(pg.members)': ('pg.members', False),
+}
 CLS_WRAPPERS = {
     'pg.wrap': 'pg.wrap({f})',
     'pg.symbolize(class)': 'pg.symbolize({f})',
     'pg.wrap(spec)': 'pg.wrap({f}, {spec})',
     'pg.wrap(auto_typing)': 'pg.wrap({f}, auto_typing=True)',
 }
+FUNCTOR_KINDS = list(FN_WRAPPERS) + list(SUBCLASS_KINDS)
+UNTYPED_FUNCTOR_KINDS = ['pg.functor', 'pg.symbolize', 'functor_class', 'subclass(annotations)',
+                         'subclass(pg.members)']
+
+
+def is_typed_kind(kind):
+  """Parameters are declared int: only int argument values are legal."""
+  return 'auto_typing' in kind or kind == 'subclass(int-annotations)'
+
+
+def int_values_only(kind):
+  return is_typed_kind(kind) or '(spec)' in kind
+
+
+def sig_for(sig, kind):
+  return sig.typed(is_typed_kind(kind))
+
+
+def pick_kind(i, seed, sig, shift=0, kinds=None):
+  """Deterministic rotation of wrapper kinds that is not aligned with any signature feature."""
+  kinds = kinds or FUNCTOR_KINDS
+  idx = (i + i // len(kinds) + seed + shift) % len(kinds)
+  while kinds[idx] in SUBCLASS_KINDS and sig.va:      # *args cannot be read by a `_call()` body
+    idx = (idx + 1) % len(kinds)
+  return kinds[idx]
 
 
 def spec_src(sig):
@@ -107,6 +214,11 @@ def spec_src(sig):
 _BUILT = {}
 
 
+class Prelude(str):
+  """Source that defines F (original) and W (symbolic); .compact is a short equivalent."""
+  compact = ''
+
+
 def build(sig, kind):
   """Returns (original, wrapped, prelude source)."""
   key = (sig.id, kind)
@@ -114,16 +226,26 @@ def build(sig, kind):
     return _BUILT[key]
   is_cls = kind in CLS_WRAPPERS
   tag = ''.join(ch for ch in kind if ch.isalnum())
-  name = ('C_' if is_cls else 'f_') + sig.id + '_' + tag
-  src = sig.cls_src(name) if is_cls else sig.fn_src(name)
-  tmpl = (CLS_WRAPPERS if is_cls else FN_WRAPPERS)[kind]
-  wsrc = tmpl.format(f=name, spec=spec_src(sig))
-  prelude = ('import pyglove as pg, sys, types\n'
-             f"m_ = sys.modules.setdefault('{MOD}', types.ModuleType('{MOD}'))\n"
-             f"ns_ = {{'__name__': '{MOD}', 'pg': pg}}\n"
-             f'exec({src!r}, ns_)\n'
-             f'F = ns_[{name!r}]; m_.__dict__[{name!r}] = F\n'
-             f"W = eval({wsrc!r}, ns_)\n")
+  name = ('C_' if is_cls else 'f_') + sig.id.replace('~', '_') + '_' + tag
+  head = ('import pyglove as pg, sys, types, typing\n'
+          f"m_ = sys.modules.setdefault('{MOD}', types.ModuleType('{MOD}'))\n"
+          f"ns_ = {{'__name__': '{MOD}', 'pg': pg, 'Any': typing.Any}}\n")
+  if kind in SUBCLASS_KINDS:
+    wname = 'S' + name[1:]
+    src2 = sig.subclass_src(wname, SUBCLASS_KINDS[kind][0])
+    prelude = (head + f'exec({sig.fn_src(name)!r}, ns_)\nF = ns_[{name!r}]\n'
+               f'exec({src2!r}, ns_)\n'
+               f'W = ns_[{wname!r}]; m_.__dict__[{wname!r}] = W\n')
+  else:
+    src = sig.cls_src(name) if is_cls else sig.fn_src(name)
+    tmpl = (CLS_WRAPPERS if is_cls else FN_WRAPPERS)[kind]
+    wsrc = tmpl.format(f=name, spec=spec_src(sig))
+    prelude = (head + f'exec({src!r}, ns_)\n'
+               f'F = ns_[{name!r}]; m_.__dict__[{name!r}] = F\n'
+               f"W = eval({wsrc!r}, ns_)\n")
+  prelude = Prelude(prelude)
+  prelude.compact = ('import pyglove as pg, bounded.c18_functor as m\n'
+                     f'F, W, _ = m.build({sig.ctor_src()}, {kind!r})\n')
   ns = {}
   try:
     exec(prelude, ns)  # pylint: disable=exec-used
@@ -159,6 +281,7 @@ def call(fn, *a, **k):
 
 def _category(msg):
   for pat, cat in (('multiple values', 'multiple-values'), ('unexpected keyword', 'unexpected-keyword'),
+                   ('required keyword-only', 'missing-keyword-only-argument'),
                    ('missing', 'missing-argument'), ('positional argument', 'too-many-positional'),
                    ('new value for argument', 'rebinding-without-override')):
     if pat in msg:
@@ -166,9 +289,26 @@ def _category(msg):
   return 'other'
 
 
+_PRIM = (bool, int, float, str, type(None))
+
+
+def same(a, b):
+  """Equality that also tells 0 / False / 0.0 and tuple / list apart."""
+  if isinstance(a, (tuple, list)) and isinstance(b, (tuple, list)):
+    return (isinstance(a, tuple) == isinstance(b, tuple) and len(a) == len(b)
+            and all(same(x, y) for x, y in zip(a, b)))
+  if isinstance(a, dict) and isinstance(b, dict):
+    return set(a.keys()) == set(b.keys()) and all(same(a[k], b[k]) for k in a.keys())
+  if isinstance(a, _PRIM) or isinstance(b, _PRIM):
+    return type(a) is type(b) and a == b
+  return bool(a == b)
+
+
 def agree(want, got):
   if want[0] == 'ok':
-    return got[0] == 'ok' and got[1] == want[1]
+    return got[0] == 'ok' and same(want[1], got[1])
+  if want[0] == 'exc':
+    return tuple(got) == tuple(want)      # an error of the body propagates unchanged
   return got[0] == want[0]       # both TypeError (category may be worded differently)
 
 
@@ -178,7 +318,7 @@ def _short(o):
 
 def _vs(want, got):
   """Case-id fragment describing expected vs observed outcome."""
-  if want[0] == 'ok' and got[0] == 'ok' and want[1] != got[1]:
+  if want[0] == 'ok' and got[0] == 'ok' and not same(want[1], got[1]):
     return 'python-ok/got-different-result'
   return f'python-{_short(want)}/got-{_short(got)}'
 
@@ -195,6 +335,54 @@ def mk_args(p, kws, base):
   return tuple(base + i for i in range(p)), {nm: base * 10 + i for i, nm in enumerate(kws)}
 
 
+# Value classes beyond "distinct ints".  Each is applied to a non-empty seeded
+# subset of the supplied arguments of a call shape.
+VALUE_CLASSES = ('None', 'falsy', 'default-equal', 'body-raises')
+FALSY = (0, False, '', 0.0, [])
+
+
+def specialize(sig, kind, a, k, vclass, r):
+  """(a, k) with some values replaced by values of class `vclass`; None if not applicable."""
+  ints_only = int_values_only(kind)
+  if ints_only and vclass in ('None', 'body-raises'):
+    return None
+  slots = [('p', i) for i in range(len(a))] + [('k', nm) for nm in k]
+  if vclass == 'default-equal':
+    slots = [s for s in slots
+             if (s[0] == 'p' and s[1] < sig.n and sig.pos[s[1]] in sig.defaults)
+             or (s[0] == 'k' and s[1] in sig.defaults)]
+  if not slots:
+    return None
+  chosen = [s for s in slots if r.random() < 0.5] or [r.choice(slots)]
+  a, k = list(a), dict(k)
+  for how, at in chosen:
+    if vclass == 'None':
+      v = None
+    elif vclass == 'falsy':
+      v = 0 if ints_only else r.choice(FALSY)
+    elif vclass == 'body-raises':
+      v = 'boom'
+    else:
+      v = sig.defaults[sig.pos[at] if how == 'p' else at]
+    if how == 'p':
+      a[at] = v
+    else:
+      k[at] = v
+  return tuple(a), k
+
+
+def with_value_variants(sig, kind, j, a, k, r):
+  """[(tag, a, k)]: the int-valued call and one seeded value-class variant of it."""
+  out = [('', a, k)]
+  order = VALUE_CLASSES[j % 4:] + VALUE_CLASSES[:j % 4]
+  for vclass in order:
+    sp = specialize(sig, kind, a, k, vclass, r)
+    if sp is not None and sp != (a, k):
+      out.append((f'[{vclass}-values]', sp[0], sp[1]))
+      break
+  return out
+
+
 def _fmt_call(a, k):
   return ', '.join([repr(x) for x in a] + [f'{n}={v!r}' for n, v in k.items()])
 
@@ -203,33 +391,29 @@ def _fmt_call(a, k):
 # Reference for two-stage binding.
 # ---------------------------------------------------------------------------
 
-def reference_two_stage(f, sig, cargs, ckw, args, kw, override):
-  """Outcome of `wrapped(*cargs, **ckw)(*args, **kw)` per Python semantics."""
-  isig = inspect.signature(f)
+def merge_call(f, sig, named, extras, varargs, args, kw, override):
+  """Outcome of calling a functor whose bound state is (named, extras, varargs) with (*args, **kw).
+
+  None: the statement does not say what has to happen (not judged).
+  """
   try:
-    b1 = isig.bind_partial(*cargs, **ckw)
+    b2 = inspect.signature(f).bind_partial(*args, **kw)
   except TypeError as e:
-    return 'ctor', ('TypeError', _category(str(e)))
-  try:
-    b2 = isig.bind_partial(*args, **kw)
-  except TypeError as e:
-    return 'call', ('TypeError', _category(str(e)))
-  named = {k: v for k, v in b1.arguments.items() if k in sig.names}
-  extras = dict(b1.arguments.get('kw', {}))
-  varargs = tuple(b1.arguments.get('args', ()))
+    return ('TypeError', _category(str(e)))
+  named, extras, varargs = dict(named), dict(extras), tuple(varargs or ())
   for k, v in b2.arguments.items():
     if k in sig.names:
       if k in named and not override:
-        return 'call', ('TypeError', 'rebinding-without-override')
+        return ('TypeError', 'rebinding-without-override')
       named[k] = v
   for k, v in b2.arguments.get('kw', {}).items():
     if k in extras and not override:
-      return 'call', ('TypeError', 'rebinding-without-override')
+      return ('TypeError', 'rebinding-without-override')
     extras[k] = v
   v2 = tuple(b2.arguments.get('args', ()))
   if v2:
     if varargs and not override:
-      return 'call', None        # both stages give *args: not specified -> not judged
+      return None        # both stages give *args: not specified -> not judged
     varargs = v2
   pos = []
   rest = dict(named)
@@ -239,8 +423,20 @@ def reference_two_stage(f, sig, cargs, ckw, args, kw, override):
     else:
       break
   if varargs and len(pos) < sig.n:
-    return 'call', None          # cannot be written as a Python call -> not judged
-  return 'call', call(f, *pos, *varargs, **rest, **extras)
+    return None          # cannot be written as a Python call -> not judged
+  return call(f, *pos, *varargs, **rest, **extras)
+
+
+def reference_two_stage(f, sig, cargs, ckw, args, kw, override):
+  """Outcome of `wrapped(*cargs, **ckw)(*args, **kw)` per Python semantics."""
+  try:
+    b1 = inspect.signature(f).bind_partial(*cargs, **ckw)
+  except TypeError as e:
+    return 'ctor', ('TypeError', _category(str(e)))
+  named = {k: v for k, v in b1.arguments.items() if k in sig.names}
+  extras = dict(b1.arguments.get('kw', {}))
+  varargs = tuple(b1.arguments.get('args', ()))
+  return 'call', merge_call(f, sig, named, extras, varargs, args, kw, override)
 
 
 def expected_init_args(f, sig, cargs, ckw):
@@ -273,32 +469,106 @@ def init_args_of(x):
   return out
 
 
+def same_init_args(rep, exp):
+  """sym_init_args agree: same names, same values (an unbound required one is MISSING_VALUE)."""
+  if not isinstance(rep, dict) or not isinstance(exp, dict) or set(rep) != set(exp):
+    return False
+  for k, v in exp.items():
+    if v is pg.MISSING_VALUE or rep[k] is pg.MISSING_VALUE or isinstance(rep[k], type(pg.MISSING_VALUE)):
+      if not (pg.MISSING_VALUE == v and pg.MISSING_VALUE == rep[k]):
+        return False
+    elif not same(rep[k], v):
+      return False
+  return True
+
+
+# ---------------------------------------------------------------------------
+# Case-id family: 'functor.' vs 'subclassed-functor.'
+# ---------------------------------------------------------------------------
+
+class BufRec:
+  """Buffers Recorder.case calls so that failing ids can be qualified afterwards."""
+
+  def __init__(self):
+    self.calls = []
+    self.failed = False
+
+  def case(self, case_id, key, ok, message='', witness='', nontrivial=True):
+    self.calls.append((case_id, key, ok, message, witness, nontrivial))
+    if not ok:
+      self.failed = True
+    return ok
+
+  def fail_ids(self):
+    return {c[0] for c in self.calls if not c[2]}
+
+
+def run_routine(rec, sig, kind, routine):
+  """Runs routine(rec, sig, kind, f, w, prelude) for one way of symbolizing.
+
+  For a subclassed functor the same routine (same inputs) is repeated with
+  `pg.functor` of the same signature when something failed: a case that fails
+  for both keeps its `functor.` id (one defect, one id); a case that fails only
+  for the subclassed functor is reported as `subclassed-functor.`.
+  """
+  s = sig_for(sig, kind)
+  built = try_build(rec, s, kind)
+  if built is None:
+    return
+  if kind not in SUBCLASS_KINDS:
+    routine(rec, s, kind, *built)
+    return
+  buf = BufRec()
+  routine(buf, s, kind, *built)
+  plain_fail = set()
+  if buf.failed:
+    pkind = 'pg.functor(auto_typing)' if is_typed_kind(kind) else 'pg.functor'
+    pbuilt = try_build(BufRec(), s, pkind)
+    if pbuilt is not None:
+      pbuf = BufRec()
+      routine(pbuf, s, pkind, *pbuilt)
+      plain_fail = pbuf.fail_ids()
+  for case_id, key, ok, message, witness, nontrivial in buf.calls:
+    if not ok and case_id.startswith('functor.') and kind not in case_id and case_id not in plain_fail:
+      case_id = 'subclassed-' + case_id
+    rec.case(case_id, key, ok, message, witness, nontrivial)
+
+
 # ---------------------------------------------------------------------------
 # Drivers
 # ---------------------------------------------------------------------------
 
 def _witness(prelude, body):
-  return prelude + body
+  full = prelude + body
+  if len(full) > 1150 and getattr(prelude, 'compact', ''):
+    return prelude.compact + body
+  return full
 
 
 def _check_signature(rec, sig, kind, f, w, prelude):
-  want = [(p.name, p.kind, p.default) for p in inspect.signature(f).parameters.values()
-          if p.name != 'self']
+  def norm(p):
+    name = '**' if p.kind == p.VAR_KEYWORD and kind in SUBCLASS_KINDS else p.name
+    return (name, p.kind, p.default)
+  want = [norm(p) for p in inspect.signature(f).parameters.values() if p.name != 'self']
   try:
-    got = [(p.name, p.kind, p.default)
-           for p in list(inspect.signature(w.__init__).parameters.values())[1:]]
+    got = [norm(p) for p in list(inspect.signature(w.__init__).parameters.values())[1:]]
     msg = f'got {got!r}, want {want!r}'
   except Exception as e:  # pylint: disable=broad-except
     got, msg = None, f'{type(e).__name__}: {e}'
-  rec.case(f'{_family(kind)}.init-signature/{kind}', (sig.id, kind), ok=got == want, message=msg,
+  rec.case(f'{_family(kind)}.init-signature/{kind}', (sig.id, kind),
+           ok=got is not None and len(got) == len(want) and all(same(x, y) for x, y in zip(got, want)),
+           message=msg,
            witness=_witness(prelude, 'import inspect\n'
-                            'a = [(p.name, p.kind, p.default) for p in list(inspect.signature(W.__init__).parameters.values())[1:]]\n'
-                            "b = [(p.name, p.kind, p.default) for p in inspect.signature(F).parameters.values() if p.name != 'self']\n"
+                            "n = lambda p: '**' if p.kind == p.VAR_KEYWORD else p.name\n"
+                            'a = [(n(p), p.kind, p.default) for p in list(inspect.signature(W.__init__).parameters.values())[1:]]\n'
+                            "b = [(n(p), p.kind, p.default) for p in inspect.signature(F).parameters.values() if p.name != 'self']\n"
                             'assert a == b, (a, b)\n'))
 
 
 def _family(kind):
-  return 'class-wrapper' if kind in CLS_WRAPPERS else 'functor'
+  if kind in CLS_WRAPPERS:
+    return 'class-wrapper'
+  return 'subclassed-functor' if kind in SUBCLASS_KINDS else 'functor'
 
 
 def _roundtrips(x):
@@ -308,54 +578,76 @@ def _roundtrips(x):
           ('json-str-roundtrip', 'pg.from_json_str(x.to_json_str())')]
 
 
-def _single_stage_functor(rec, sig, kind, f, w, prelude, shape_iter, deep):
-  for p, kws in shape_iter:
-    a, k = mk_args(p, kws, 10)
-    want = call(f, *a, **k)
-    argsrc = _fmt_call(a, k)
-    feat = sig.features()
-    # (1) everything bound at construction, then called with nothing.
-    x = None
+def _single_stage_functor(rec, sig, kind, f, w, prelude, cases, deep):
+  """cases: [(p, kws, [(value tag, a, k), ...])]; a variant runs only if the int-valued call held."""
+  feat = sig.features()
+  for p, kws, variants in cases:
+    for vtag, a, k in variants:
+      want = call(f, *a, **k)
+      argsrc = _fmt_call(a, k)
+      key = (sig.id, kind, p, kws, vtag and argsrc)
+      allok = True
+      # (1) everything bound at construction, then called with nothing.
+      x = None
 
-    def ctor_then_call():
-      nonlocal x
-      x = w(*a, **k)
-      return x()
-    got = got1 = call(ctor_then_call)
-    rec.case(f'functor.bound-at-construction/{_vs(want, got)}',
-             (sig.id, kind, p, kws), ok=agree(want, got),
-             message=f'{sig.params}: f({argsrc}) -> {want!r}; W({argsrc})() -> {got!r}',
-             witness=_witness(prelude, f'import bounded.c18_functor as m\n'
-                              f'assert m.agree(m.call(F, {argsrc}), m.call(lambda: W({argsrc})()))\n'))
-    # (2) nothing bound, everything supplied at call time.
-    got = call(lambda: w()(*a, **k))
-    rec.case(f'functor.supplied-at-call-time/{_vs(want, got)}',
-             (sig.id, kind, p, kws), ok=agree(want, got),
-             message=f'{sig.params}: f({argsrc}) -> {want!r}; W()({argsrc}) -> {got!r}',
-             witness=_witness(prelude, f'import bounded.c18_functor as m\n'
-                              f'assert m.agree(m.call(F, {argsrc}), m.call(lambda: W()({argsrc})))\n'))
-    if x is None or want[0] != 'ok' or not agree(want, got1):
-      continue
-    # (3) reported arguments.
-    exp = expected_init_args(f, sig, a, k)
-    try:
-      rep = init_args_of(x)
-    except Exception as e:  # pylint: disable=broad-except
-      rep = f'{type(e).__name__}: {e}'
-    rec.case(f'functor.sym_init_args/fully-bound[{feat}]', (sig.id, kind, p, kws), ok=rep == exp,
-             message=f'{sig.params}: W({argsrc}).sym_init_args = {rep!r}, want {exp!r}',
-             witness=_witness(prelude, f'import bounded.c18_functor as m\n'
-                              f'assert m.init_args_of(W({argsrc})) == {exp!r}\n'))
-    if not deep:
-      continue
-    # (4) copies describe the same call.
-    for name, src in _roundtrips(x):
-      got = call(lambda: eval(src, {'x': x, 'pg': pg})())  # pylint: disable=eval-used
-      rec.case(f'functor.{name}/{_vs(want, got)}', (sig.id, kind, p, kws),
-               ok=agree(want, got),
-               message=f'{sig.params}: f({argsrc}) -> {want!r}; {src} of W({argsrc}) called -> {got!r}',
-               witness=_witness(prelude, f'import bounded.c18_functor as m\nx = W({argsrc})\n'
-                                f'assert m.agree(m.call(F, {argsrc}), m.call(lambda: ({src})()))\n'))
+      def ctor_then_call():
+        nonlocal x
+        x = w(*a, **k)
+        return x()
+      got = got1 = call(ctor_then_call)
+      allok &= rec.case(f'functor.bound-at-construction{vtag}/{_vs(want, got)}',
+                        key, ok=agree(want, got),
+                        message=f'{sig.params}: f({argsrc}) -> {want!r}; W({argsrc})() -> {got!r}',
+                        witness=_witness(prelude, f'import bounded.c18_functor as m\n'
+                                         f'assert m.agree(m.call(F, {argsrc}), m.call(lambda: W({argsrc})()))\n'))
+      # (2) nothing bound, everything supplied at call time.
+      y = None
+
+      def call_time():
+        nonlocal y
+        y = w()
+        return y(*a, **k)
+      got = call(call_time)
+      allok &= rec.case(f'functor.supplied-at-call-time{vtag}/{_vs(want, got)}',
+                        key, ok=agree(want, got),
+                        message=f'{sig.params}: f({argsrc}) -> {want!r}; W()({argsrc}) -> {got!r}',
+                        witness=_witness(prelude, f'import bounded.c18_functor as m\n'
+                                         f'assert m.agree(m.call(F, {argsrc}), m.call(lambda: W()({argsrc})))\n'))
+      if y is not None and agree(want, got) and (p or kws):
+        # Call-time arguments are not remembered: the next call sees none of them.
+        want0, got0 = call(f), call(y)
+        allok &= rec.case(f'functor.call-after-call{vtag}/{_vs(want0, got0)}', key, ok=agree(want0, got0),
+                          message=f'{sig.params}: y = W(); y({argsrc}); y() -> {got0!r}; f() -> {want0!r}',
+                          witness=_witness(prelude, 'import bounded.c18_functor as m\n'
+                                           f'y = W(); m.call(y, {argsrc})\n'
+                                           'assert m.agree(m.call(F), m.call(y))\n'))
+      if x is not None and agree(want, got1) and want[0] != 'TypeError':
+        # (3) reported arguments.
+        exp = expected_init_args(f, sig, a, k)
+        try:
+          rep = init_args_of(x)
+        except Exception as e:  # pylint: disable=broad-except
+          rep = f'{type(e).__name__}: {e}'
+        allok &= rec.case(f'functor.sym_init_args/fully-bound[{feat}]{vtag}', key, ok=same_init_args(rep, exp),
+                          message=f'{sig.params}: W({argsrc}).sym_init_args = {rep!r}, want {exp!r}',
+                          witness=_witness(prelude, f'import bounded.c18_functor as m\n'
+                                           f'assert m.same_init_args(m.init_args_of(W({argsrc})), '
+                                           f'm.expected_init_args(F, None, *m.ak({argsrc})))\n'))
+        if deep:
+          # (4) copies describe the same call.
+          for name, src in _roundtrips(x):
+            got = call(lambda: eval(src, {'x': x, 'pg': pg})())  # pylint: disable=eval-used
+            allok &= rec.case(
+                f'functor.{name}{vtag}/{_vs(want, got)}', key, ok=agree(want, got),
+                message=f'{sig.params}: f({argsrc}) -> {want!r}; {src} of W({argsrc}) called -> {got!r}',
+                witness=_witness(prelude, f'import bounded.c18_functor as m\nx = W({argsrc})\n'
+                                 f'assert m.agree(m.call(F, {argsrc}), m.call(lambda: ({src})()))\n'))
+      if not allok:
+        break
+
+
+def ak(*a, **k):
+  return a, k
 
 
 def _pick(items, r, k):
@@ -363,91 +655,126 @@ def _pick(items, r, k):
   return items if len(items) <= k else r.sample(items, k)
 
 
+def _single_cases(s, kind, r, limit):
+  sh = _pick(shapes(s), r, limit)
+  out = []
+  for j, (p, kws) in enumerate(sh):
+    a, k = mk_args(p, kws, 10)
+    out.append((p, kws, with_value_variants(s, kind, j, a, k, r)))
+  return out
+
+
 def drv_functor_single_stage(tier, seed):
   quick = tier == 'quick'
   rec = Recorder(
       'C18', 'functors: all arguments at construction / all at call time vs direct call',
       scope=('240 signature shapes (0..3 positional, 0..n defaults, *args, 0..2 keyword-only '
-             'with/without default, **kw) x 6 ways of symbolizing a function; call shapes: 0..n+2 '
+             'with/without default, **kw) x 6 ways of symbolizing a function + 3 ways of writing a '
+             'subclassed functor (no *args); ' + ('40 seeded' if quick else 'all 384')
+             + ' further shapes whose defaults are None / falsy; call shapes: 0..n+2 '
              'positionals x every subset of keyword names incl. an unknown one ('
-             + ('<=24 seeded shapes per signature' if quick else 'all shapes')
-             + '); result or TypeError vs the original; sym_init_args; clone / deep clone / '
-             'JSON round trips; inspect.signature of generated __init__'))
+             + ('<=12 seeded shapes per signature' if quick else '<=48 seeded shapes per signature')
+             + '); values: distinct ints and, per shape, one of the classes None / falsy / '
+             'equal-to-default / body raises; result or error vs the original; a second call '
+             'without arguments; sym_init_args; clone / deep clone / JSON round trips; '
+             'inspect.signature of generated __init__'))
   r = rng(seed, 'c18-single')
-  kinds = list(FN_WRAPPERS)
+  limit = 12 if quick else 48
   for i, sig in enumerate(all_sigs()):
-    use = [kinds[(i + seed) % len(kinds)]] if quick else kinds
+    use = [pick_kind(i, seed, sig)]
     if not quick or i % 7 == seed % 7:
-      use = kinds
+      use = [k for k in FUNCTOR_KINDS if not (k in SUBCLASS_KINDS and sig.va)]
     for kind in use:
-      s = Sig(sig.n, sig.ndef, sig.va, sig.kwo, sig.vk, annotated=True) if 'auto_typing' in kind else sig
-      built = try_build(rec, s, kind)
-      if built is None:
-        continue
-      f, w, prelude = built
-      _check_signature(rec, s, kind, f, w, prelude)
-      sh = list(shapes(s))
-      if quick:
-        sh = _pick(sh, r, 24)
-      elif len(sh) > 160:
-        sh = _pick(sh, r, 160)
-      _single_stage_functor(rec, s, kind, f, w, prelude, sh, deep=True)
+      s = sig_for(sig, kind)
+      cases = _single_cases(s, kind, r, limit)
+
+      def routine(rc, s_, kind_, f, w, prelude, cases=cases):
+        _check_signature(rc, s_, kind_, f, w, prelude)
+        _single_stage_functor(rc, s_, kind_, f, w, prelude, cases, deep=True)
+      run_routine(rec, sig, kind, routine)
+  fl = flavored_sigs()
+  if quick:
+    fl = _pick(fl, r, 40)
+  for i, sig in enumerate(fl):
+    kind = pick_kind(i, seed, sig, kinds=UNTYPED_FUNCTOR_KINDS)
+    cases = _single_cases(sig, kind, r, limit)
+
+    def routine2(rc, s_, kind_, f, w, prelude, cases=cases):
+      _check_signature(rc, s_, kind_, f, w, prelude)
+      _single_stage_functor(rc, s_, kind_, f, w, prelude, cases, deep=True)
+    run_routine(rec, sig, kind, routine2)
   return rec.result()
 
 
-def _two_stage_case(rec, sig, kind, f, w, prelude, c, d, override, how, deep):
-  (p1, kws1), (p2, kws2) = c, d
-  a1, k1 = mk_args(p1, kws1, 10)
-  a2, k2 = mk_args(p2, kws2, 20)
+def _two_stage_case(rec, sig, kind, f, w, prelude, c, d, override, how, deep, vtag, a1, k1, a2, k2,
+                    via_partial=False):
+  """One (construction arguments, call arguments) pair; returns False if any case failed."""
   stage, want = reference_two_stage(f, sig, a1, k1, a2, k2, override)
   if want is None:
-    return
+    return True
+  allok = True
   s1, s2 = _fmt_call(a1, k1), _fmt_call(a2, k2)
   ov_ctor = override and how == 'ctor-flag'
   ov_call = override and how == 'call-flag'
   csrc = s1 + (', override_args=True' if ov_ctor else '')
   csrc = csrc.lstrip(', ')
   dsrc = (s2 + (', override_args=True' if ov_call else '')).lstrip(', ')
+  key = (sig.id, kind, c, d, override, how, vtag and (s1, s2), via_partial)
+  wn = 'W.partial' if via_partial else 'W'   # both spellings construct a (partially) bound functor
   x = None
   ctor_failed = None
 
   def run():
     nonlocal x, ctor_failed
     try:
-      x = w(*a1, **dict(k1, **({'override_args': True} if ov_ctor else {})))
+      x = (w.partial if via_partial else w)(*a1, **dict(k1, **({'override_args': True} if ov_ctor else {})))
     except Exception:
       ctor_failed = True
       raise
     return x(*a2, **dict(k2, **({'override_args': True} if ov_call else {})))
   got = call(run)
   what = 'override' if override else 'no-override'
-  rec.case(f'functor.two-stage[{what}]/{_vs(want, got)}',
-           (sig.id, kind, c, d, override, how), ok=agree(want, got),
-           message=f'{sig.params}: W({csrc})({dsrc}) -> {got!r}; Python semantics -> {want!r}',
-           witness=_witness(prelude, 'import bounded.c18_functor as m\n'
-                            f'got = m.call(lambda: W({csrc})({dsrc}))\n'
-                            f'assert m.agree({want!r}, got), got\n'))
+  allok &= rec.case(f'functor.two-stage[{what}]{vtag}/{_vs(want, got)}',
+                    key, ok=agree(want, got),
+                    message=f'{sig.params}: {wn}({csrc})({dsrc}) -> {got!r}; Python semantics -> {want!r}',
+                    witness=_witness(prelude, 'import bounded.c18_functor as m\n'
+                                     f'got = m.call(lambda: {wn}({csrc})({dsrc}))\n'
+                                     f'assert m.agree({want!r}, got), got\n'))
   if stage == 'ctor' and not ctor_failed:
-    rec.case('functor.two-stage/construction-accepts-invalid-arguments',
-             (sig.id, kind, c), ok=False,
-             message=f'{sig.params}: W({csrc}) did not raise; Python: {want!r}',
-             witness=_witness(prelude, f'import bounded.c18_functor as m\n'
-                              f"assert m.call(lambda: W({csrc}))[0] == 'TypeError'\n"))
+    allok &= rec.case('functor.two-stage/construction-accepts-invalid-arguments',
+                      (sig.id, kind, c), ok=False,
+                      message=f'{sig.params}: {wn}({csrc}) did not raise; Python: {want!r}',
+                      witness=_witness(prelude, f'import bounded.c18_functor as m\n'
+                                       f"assert m.call(lambda: {wn}({csrc}))[0] == 'TypeError'\n"))
   if x is None:
-    return
+    return allok
   exp = expected_init_args(f, sig, a1, k1)
   if exp is None:
-    return
+    return allok
+  # The call must not have changed what is bound.
   try:
     rep = init_args_of(x)
   except Exception as e:  # pylint: disable=broad-except
     rep = f'{type(e).__name__}: {e}'
-  rec.case(f'functor.sym_init_args/partially-bound[{sig.features()}]', (sig.id, kind, c),
-           ok=rep == exp, message=f'{sig.params}: W({csrc}).sym_init_args = {rep!r}, want {exp!r}',
-           witness=_witness(prelude, f'import bounded.c18_functor as m\n'
-                            f'assert m.init_args_of(W({csrc})) == {exp!r}\n'))
+  allok &= rec.case(f'functor.sym_init_args/partially-bound[{sig.features()}]{vtag}', (sig.id, kind, c, vtag and s1),
+                    ok=same_init_args(rep, exp),
+                    message=f'{sig.params}: {wn}({csrc}).sym_init_args = {rep!r}, want {exp!r}',
+                    witness=_witness(prelude, f'import bounded.c18_functor as m\n'
+                                     f'assert m.same_init_args(m.init_args_of({wn}({csrc})), '
+                                     f'm.expected_init_args(F, None, *m.ak({s1})))\n'))
+  if stage == 'call' and (a2 or k2):
+    # ... nor what a later call without arguments sees.
+    want0 = reference_two_stage(f, sig, a1, k1, (), {}, override)[1]
+    if want0 is not None:
+      got0 = call(x)
+      allok &= rec.case(
+          f'functor.call-after-call{vtag}/{_vs(want0, got0)}', key, ok=agree(want0, got0),
+          message=f'{sig.params}: x = {wn}({csrc}); x({dsrc}); then x() -> {got0!r}; want {want0!r}',
+          witness=_witness(prelude, 'import bounded.c18_functor as m\n'
+                           f'x = {wn}({csrc}); m.call(lambda: x({dsrc}))\n'
+                           f'got = m.call(x)\nassert m.agree({want0!r}, got), got\n'))
   if not deep or stage != 'call' or not agree(want, got):
-    return
+    return allok
   for name, src in _roundtrips(x):
     def again(src=src):
       y = eval(src, {'x': x, 'pg': pg})  # pylint: disable=eval-used
@@ -455,42 +782,69 @@ def _two_stage_case(rec, sig, kind, f, w, prelude, c, d, override, how, deep):
         return y(*a2, **dict(k2, override_args=True))   # a construction flag is not an argument
       return y(*a2, **dict(k2, **({'override_args': True} if ov_call else {})))
     got = call(again)
-    rec.case(f'functor.two-stage.{name}[{what}]/{_vs(want, got)}',
-             (sig.id, kind, c, d, override, how), ok=agree(want, got),
-             message=f'{sig.params}: x = W({csrc}); ({src})({dsrc}) -> {got!r}; want {want!r}',
-             witness=_witness(prelude, 'import bounded.c18_functor as m\n'
-                              f'x = W({csrc})\n'
-                              f'got = m.call(lambda: ({src})({dsrc}' + (', override_args=True' if ov_ctor and name.startswith('json') and 'override_args' not in dsrc else '') + '))\n'
-                              f'assert m.agree({want!r}, got), got\n'))
+    allok &= rec.case(
+        f'functor.two-stage.{name}[{what}]{vtag}/{_vs(want, got)}',
+        key, ok=agree(want, got),
+        message=f'{sig.params}: x = {wn}({csrc}); ({src})({dsrc}) -> {got!r}; want {want!r}',
+        witness=_witness(prelude, 'import bounded.c18_functor as m\n'
+                         f'x = {wn}({csrc})\n'
+                         f'got = m.call(lambda: ({src})({dsrc}'
+                         + (', override_args=True' if ov_ctor and name.startswith('json') and 'override_args' not in dsrc else '')
+                         + '))\n'
+                         f'assert m.agree({want!r}, got), got\n'))
+  return allok
 
 
 def drv_functor_two_stage(tier, seed):
   quick = tier == 'quick'
   rec = Recorder(
       'C18', 'functors: partial binding at construction + late arguments (with/without override)',
-      scope=('same 240 signatures; pairs (construction shape, call shape) of positional counts '
-             '0..n+1 and keyword subsets: exhaustive for signatures with <=2 named parameters, '
+      scope=('same 240 signatures, one way of symbolizing each (6 function wrappers + 3 subclassed '
+             'functor styles, rotated by seed); pairs (construction shape, call shape) of positional '
+             'counts 0..n+1 and keyword subsets: exhaustive for signatures with <='
+             + ('1' if quick else '2') + ' named parameters, '
              + ('10' if quick else '150') + ' seeded pairs otherwise; override_args False / True (as '
-             'constructor flag or call flag); oracle = bind_partial merge + direct call; '
-             'sym_init_args of the partially bound functor; clone/JSON copies called the same way'))
+             'constructor flag or call flag); construction spelled W(...) or W.partial(...); values: distinct ints and, per pair, one of the classes '
+             'None / falsy / equal-to-default / body raises at either stage; oracle = bind_partial '
+             'merge + direct call; sym_init_args after the call; a second call without arguments; '
+             'clone/JSON copies called the same way'))
   r = rng(seed, 'c18-two')
-  kinds = list(FN_WRAPPERS)
   for i, sig in enumerate(all_sigs()):
-    kind = kinds[(i + seed) % len(kinds)]
-    s = Sig(sig.n, sig.ndef, sig.va, sig.kwo, sig.vk, annotated=True) if 'auto_typing' in kind else sig
-    built = try_build(rec, s, kind)
-    if built is None:
-      continue
-    f, w, prelude = built
+    kind = pick_kind(i, seed, sig)
+    s = sig_for(sig, kind)
     sh = [(p, kws) for p, kws in shapes(s) if p <= s.n + 1]
     pairs = list(itertools.product(sh, sh))
     small = len(s.names) <= (1 if quick else 2)
     if not small or len(pairs) > 1500:
       pairs = _pick(pairs, r, 10 if quick else 150)
+    plan = []
     for j, (c, d) in enumerate(pairs):
-      for override in (False, True):
-        how = ('ctor-flag', 'call-flag')[j % 2]
-        _two_stage_case(rec, s, kind, f, w, prelude, c, d, override, how, deep=(j % 4 == 0))
+      a1, k1 = mk_args(c[0], c[1], 10)
+      a2, k2 = mk_args(d[0], d[1], 20)
+      variants = [('', a1, k1, a2, k2)]
+      if not small or j % 5 == seed % 5:
+        order = VALUE_CLASSES[j % 4:] + VALUE_CLASSES[:j % 4]
+        for vclass in order:
+          where = ('call', 'ctor', 'both')[(j // 4) % 3]
+          s1 = specialize(s, kind, a1, k1, vclass, r) if where != 'call' else None
+          s2 = specialize(s, kind, a2, k2, vclass, r) if where != 'ctor' else None
+          if s1 is None and s2 is None:
+            continue
+          b1, l1 = s1 or (a1, k1)
+          b2, l2 = s2 or (a2, k2)
+          variants.append((f'[{vclass}-values]', b1, l1, b2, l2))
+          break
+      plan.append((j, c, d, variants))
+
+    def routine(rc, s_, kind_, f, w, prelude, plan=plan):
+      for j, c, d, variants in plan:
+        for override in (False, True):
+          how = ('ctor-flag', 'call-flag')[j % 2]
+          for vtag, a1, k1, a2, k2 in variants:
+            if not _two_stage_case(rc, s_, kind_, f, w, prelude, c, d, override, how,
+                                   (j % 4 == 0), vtag, a1, k1, a2, k2, via_partial=(j % 3 == 2)):
+              break
+    run_routine(rec, sig, kind, routine)
   return rec.result()
 
 
@@ -504,136 +858,350 @@ def drv_class_wrappers(tier, seed):
       'C18', 'symbolized classes: __init__ receives the same arguments as the original class',
       scope=('240 __init__ signature shapes x 4 ways of wrapping a class (pg.wrap, pg.symbolize, '
              'with arg specs, auto_typing); call shapes 0..n+2 positionals x every keyword subset '
-             'incl. an unknown name (' + ('<=16 seeded per signature, one wrapper kind'
+             'incl. an unknown name (' + ('<=14 seeded per signature, one wrapper kind'
                                          if quick else '<=120 per signature, all kinds')
-             + '); attributes set by __init__ or TypeError vs the original; isinstance; '
-             'sym_init_args; clone / JSON copies; partial(...) + rebind(...) late binding; '
-             'inspect.signature of the wrapper __init__'))
+             + '); values: distinct ints and one of None / falsy / equal-to-default / __init__ '
+             'raises per shape; attributes set by __init__ or error vs the original; isinstance; '
+             'sym_init_args; clone / JSON copies; partial(...) + rebind(...) late binding; rebind of '
+             'one argument after construction; inspect.signature of the wrapper __init__'))
   r = rng(seed, 'c18-cls')
   kinds = list(CLS_WRAPPERS)
   for i, sig in enumerate(all_sigs()):
-    use = [kinds[(i + seed) % len(kinds)]] if quick else kinds
+    use = [kinds[(i + i // len(kinds) + seed) % len(kinds)]] if quick else kinds
     for kind in use:
-      s = Sig(sig.n, sig.ndef, sig.va, sig.kwo, sig.vk, annotated=True) if 'auto_typing' in kind else sig
+      s = sig.typed('auto_typing' in kind)
       built = try_build(rec, s, kind)
       if built is None:
         continue
       c, w, prelude = built
       _check_signature(rec, s, kind, c, w, prelude)
-      sh = _pick(shapes(s), r, 16 if quick else 120)
+      sh = _pick(shapes(s), r, 14 if quick else 120)
       for j, (p, kws) in enumerate(sh):
-        a, k = mk_args(p, kws, 10)
-        argsrc = _fmt_call(a, k)
-        want = call(lambda: c(*a, **k).r)
-        x = None
-
-        def make():
-          nonlocal x
-          x = w(*a, **k)
-          return x.r
-        got = call(make)
-        rec.case(f'class-wrapper.construct/{_vs(want, got)}',
-                 (s.id, kind, p, kws), ok=agree(want, got),
-                 message=f'__init__(self, {s.params}): C({argsrc}).r -> {want!r}; W({argsrc}).r -> {got!r}',
-                 witness=_witness(prelude, 'import bounded.c18_functor as m\n'
-                                  f'assert m.agree(m.call(lambda: F({argsrc}).r), m.call(lambda: W({argsrc}).r))\n'))
-        if x is None or want[0] != 'ok' or not agree(want, got):
-          continue
-        rec.case('class-wrapper.isinstance-of-original', (s.id, kind, p, kws),
-                 ok=isinstance(x, c) and isinstance(x, w), message=f'{type(x)}',
-                 witness=_witness(prelude, f'assert isinstance(W({argsrc}), F)\n'))
-        exp = expected_init_args(c.__init__, s, (None,) + a, k)
-        exp.pop('self', None)
-        try:
-          repd = init_args_of(x)
-        except Exception as e:  # pylint: disable=broad-except
-          repd = f'{type(e).__name__}: {e}'
-        rec.case(f'class-wrapper.sym_init_args[{s.features()}]', (s.id, kind, p, kws), ok=repd == exp,
-                 message=f'{s.params}: W({argsrc}).sym_init_args = {repd!r}, want {exp!r}',
-                 witness=_witness(prelude, 'import bounded.c18_functor as m\n'
-                                  f'assert m.init_args_of(W({argsrc})) == {exp!r}\n'))
-        for name, src in _roundtrips(x):
-          got2 = call(lambda: eval(src, {'x': x, 'pg': pg}).r)  # pylint: disable=eval-used
-          rec.case(f'class-wrapper.{name}/{_vs(want, got2)}',
-                   (s.id, kind, p, kws), ok=agree(want, got2),
-                   message=f'{s.params}: ({src}).r of W({argsrc}) -> {got2!r}, want {want!r}',
-                   witness=_witness(prelude, 'import bounded.c18_functor as m\n'
-                                    f'x = W({argsrc})\nassert m.agree({want!r}, m.call(lambda: ({src}).r))\n'))
-        # late binding: keyword half at partial(), other half through rebind().
-        if not a and len(k) >= 2 and j % 2 == 0:
-          names = list(k)
-          k1 = {n: k[n] for n in names[::2]}
-          k2 = {n: k[n] for n in names[1::2]}
-
-          def late():
-            y = w.partial(**k1)
-            y.rebind(**k2)
-            return y.r
-          got3 = call(late)
-          # Required arguments must all be present after the rebind for __init__ to run.
-          rec.case(f'class-wrapper.partial+rebind/{_vs(want, got3)}',
-                   (s.id, kind, p, kws), ok=agree(want, got3),
-                   message=f'{s.params}: W.partial({_fmt_call((), k1)}).rebind({_fmt_call((), k2)}).r -> {got3!r}, want {want!r}',
-                   witness=_witness(prelude, 'import bounded.c18_functor as m\n'
-                                    f'y = W.partial({_fmt_call((), k1)}); y.rebind({_fmt_call((), k2)})\n'
-                                    f'assert m.agree({want!r}, m.call(lambda: y.r))\n'))
+        a0, k0 = mk_args(p, kws, 10)
+        for vtag, a, k in with_value_variants(s, kind, j, a0, k0, r):
+          if not _class_case(rec, s, kind, c, w, prelude, j, p, kws, vtag, a, k):
+            break
   return rec.result()
+
+
+def _class_case(rec, s, kind, c, w, prelude, j, p, kws, vtag, a, k):
+  allok = True
+  argsrc = _fmt_call(a, k)
+  key = (s.id, kind, p, kws, vtag and argsrc)
+  want = call(lambda: c(*a, **k).r)
+  x = None
+
+  def make():
+    nonlocal x
+    x = w(*a, **k)
+    return x.r
+  got = call(make)
+  allok &= rec.case(f'class-wrapper.construct{vtag}/{_vs(want, got)}',
+                    key, ok=agree(want, got),
+                    message=f'__init__(self, {s.params}): C({argsrc}).r -> {want!r}; W({argsrc}).r -> {got!r}',
+                    witness=_witness(prelude, 'import bounded.c18_functor as m\n'
+                                     f'assert m.agree(m.call(lambda: F({argsrc}).r), m.call(lambda: W({argsrc}).r))\n'))
+  if x is None or want[0] != 'ok' or not agree(want, got):
+    return allok
+  allok &= rec.case('class-wrapper.isinstance-of-original', key,
+                    ok=isinstance(x, c) and isinstance(x, w), message=f'{type(x)}',
+                    witness=_witness(prelude, f'assert isinstance(W({argsrc}), F)\n'))
+  exp = expected_init_args(c.__init__, s, (None,) + a, k)
+  exp.pop('self', None)
+  try:
+    repd = init_args_of(x)
+  except Exception as e:  # pylint: disable=broad-except
+    repd = f'{type(e).__name__}: {e}'
+  allok &= rec.case(f'class-wrapper.sym_init_args[{s.features()}]{vtag}', key, ok=same_init_args(repd, exp),
+                    message=f'{s.params}: W({argsrc}).sym_init_args = {repd!r}, want {exp!r}',
+                    witness=_witness(prelude, 'import bounded.c18_functor as m\n'
+                                     f'e = m.expected_init_args(F.__init__, None, *m.ak(None, {argsrc})); e.pop("self")\n'
+                                     f'assert m.same_init_args(m.init_args_of(W({argsrc})), e)\n'))
+  for name, src in _roundtrips(x):
+    got2 = call(lambda: eval(src, {'x': x, 'pg': pg}).r)  # pylint: disable=eval-used
+    allok &= rec.case(f'class-wrapper.{name}{vtag}/{_vs(want, got2)}',
+                      key, ok=agree(want, got2),
+                      message=f'{s.params}: ({src}).r of W({argsrc}) -> {got2!r}, want {want!r}',
+                      witness=_witness(prelude, 'import bounded.c18_functor as m\n'
+                                       f'x = W({argsrc})\nassert m.agree(m.call(lambda: F({argsrc}).r), m.call(lambda: ({src}).r))\n'))
+  # late binding: keyword half at partial(), other half through rebind().
+  if not a and len(k) >= 2 and j % 2 == 0:
+    names = list(k)
+    k1 = {n: k[n] for n in names[::2]}
+    k2 = {n: k[n] for n in names[1::2]}
+
+    def late():
+      y = w.partial(**k1)
+      y.rebind(**k2)
+      return y.r
+    got3 = call(late)
+    # Required arguments must all be present after the rebind for __init__ to run.
+    allok &= rec.case(
+        f'class-wrapper.partial+rebind{vtag}/{_vs(want, got3)}',
+        key, ok=agree(want, got3),
+        message=f'{s.params}: W.partial({_fmt_call((), k1)}).rebind({_fmt_call((), k2)}).r -> {got3!r}, want {want!r}',
+        witness=_witness(prelude, 'import bounded.c18_functor as m\n'
+                         f'y = W.partial({_fmt_call((), k1)}); y.rebind({_fmt_call((), k2)})\n'
+                         f'assert m.agree(m.call(lambda: F({argsrc}).r), m.call(lambda: y.r))\n'))
+  # an argument bound later: one keyword argument is given a new value after construction.
+  if k and j % 2 == 1:
+    nm = list(k)[j % len(k)]
+    nv = 777 if vtag == '' else k[nm]
+    k3 = dict(k, **{nm: 555})
+    want4 = call(lambda: c(*a, **dict(k, **{nm: nv})).r)
+
+    def rebound():
+      y = w(*a, **k3)
+      y.rebind(**{nm: nv})
+      return y.r
+    got4 = call(rebound)
+    allok &= rec.case(
+        f'class-wrapper.rebind-after-construct{vtag}/{_vs(want4, got4)}', key, ok=agree(want4, got4),
+        message=f'{s.params}: y = W({_fmt_call(a, k3)}); y.rebind({nm}={nv!r}); y.r -> {got4!r}, want {want4!r}',
+        witness=_witness(prelude, 'import bounded.c18_functor as m\n'
+                         f'y = W({_fmt_call(a, k3)}); y.rebind({nm}={nv!r})\n'
+                         f'assert m.agree(m.call(lambda: F({_fmt_call(a, dict(k, **{nm: nv}))}).r), m.call(lambda: y.r))\n'))
+  return allok
+
+
+# ---------------------------------------------------------------------------
+# Histories: arguments bound, re-bound and un-bound after construction.
+# ---------------------------------------------------------------------------
+
+def _gen_history(r, s, kind):
+  """A seeded history and the bound state Python semantics give it.
+
+  Returns dict(lines, named, extras, varargs, ambiguous, ops, late=(a2, k2, override)).
+  `ambiguous`: names assigned (after construction) a value equal to their
+  default -- whether such a name counts as explicitly bound is not specified.
+  """
+  ints_only = int_values_only(kind)
+  pool = s.names + (['z'] if s.vk else [])
+  p1 = r.randrange(s.n + 1) if r.random() < 0.5 else 0
+  a1 = tuple(100 + i for i in range(p1))
+  if s.va and p1 == s.n and r.random() < 0.3:
+    a1 += (150, 151)
+  k1 = {n: 110 + t for t, n in enumerate(pool) if n not in s.pos[:p1] and r.random() < 0.4}
+  named = dict(zip(s.pos, a1[:s.n]))
+  named.update({n: v for n, v in k1.items() if n != 'z'})
+  extras = {n: v for n, v in k1.items() if n == 'z'}
+  varargs = list(a1[s.n:]) or None
+  amb = set()
+  ctor_override = r.random() < 0.3
+  lines = [f'x = W({(_fmt_call(a1, k1) + (", override_args=True" if ctor_override else "")).lstrip(", ")})']
+  ops = []
+
+  def value(n, t, idx):
+    v = 200 + 10 * t + idx
+    if r.random() < 0.35:
+      cls = r.choice(('None', 'falsy', 'default-equal'))
+      if cls == 'default-equal' and n in s.defaults:
+        v = s.defaults[n]
+      elif cls == 'falsy':
+        v = 0 if ints_only else r.choice(FALSY)
+      elif cls == 'None' and not ints_only:
+        v = None
+    return v, (n in s.defaults and same(v, s.defaults[n]))
+
+  for t in range(r.choice((1, 1, 2, 2, 3))):
+    op = r.choice(('rebind', 'setattr', 'del', 'del'))
+    if op == 'del':
+      cands = sorted(named) + sorted(extras) + (['args'] if varargs else [])
+      if not cands:
+        op = 'setattr'
+      else:
+        n = r.choice(cands)
+        lines.append(f'del x.{n}')
+        ops.append('del')
+        named.pop(n, None)
+        extras.pop(n, None)
+        if n == 'args':
+          varargs = None
+        amb.discard(n)
+        continue
+    targets = list(pool) + (['args'] if s.va and r.random() < 0.3 else [])
+    if not targets:
+      continue
+    if op == 'setattr':
+      chosen = [r.choice(targets)]
+    else:
+      chosen = [n for n in targets if r.random() < 0.4] or [r.choice(targets)]
+    upd = {}
+    for idx, n in enumerate(chosen):
+      if n == 'args':
+        upd[n] = [300 + 10 * t, 301 + 10 * t]
+        varargs = list(upd[n])
+        continue
+      v, is_default = value(n, t, idx)
+      upd[n] = v
+      (extras if n == 'z' else named)[n] = v
+      (amb.add if is_default else amb.discard)(n)
+    ops.append(op)
+    if op == 'setattr':
+      lines += [f'x.{n} = {v!r}' for n, v in upd.items()]
+    else:
+      lines.append(f'x.rebind({_fmt_call((), upd)})')
+  # late call
+  p2 = r.choice((0, 0, 1, 2))
+  p2 = min(p2, s.n + (1 if s.va else 0))
+  a2 = tuple(400 + i for i in range(p2))
+  k2 = {n: 410 + t for t, n in enumerate(pool + ['y']) if r.random() < 0.3}
+  if not ints_only and k2 and r.random() < 0.3:
+    k2[r.choice(sorted(k2))] = None
+  override = r.random() < 0.5
+  return dict(lines=lines, named=named, extras=extras, varargs=varargs, ambiguous=amb,
+              ops=[o for o in ('rebind', 'setattr', 'del') if o in ops],
+              late=(a2, k2, override), ctor_override=ctor_override)
+
+
+def _op_class(s, line):
+  """Class of one history statement (all of them are legal ways of (un)binding arguments)."""
+  if line.startswith('x = '):
+    return 'construct'
+  if line.startswith('del '):
+    n = line[6:]
+    return 'del-' + ('varargs' if n == 'args' else 'named-argument' if n in s.names else 'extra-keyword')
+  return ('rebind' if '.rebind(' in line else 'setattr') + ('-varargs' if 'args' in line else '')
+
+
+def _history_case(rec, s, kind, f, w, prelude, h, deep):
+  lines, named, extras, varargs, amb = h['lines'], h['named'], h['extras'], h['varargs'], h['ambiguous']
+  opname = '+'.join((['assign'] if set(h['ops']) & {'rebind', 'setattr'} else []) + (['del'] if 'del' in h['ops'] else []))
+  body = '\n'.join(lines) + '\n'
+  key = (s.id, kind, tuple(lines))
+  hist = '; '.join(lines)
+  ns = {'W': w}
+  for line in lines:
+    try:
+      exec(line, ns)  # pylint: disable=exec-used
+    except Exception as e:  # pylint: disable=broad-except
+      rec.case(f'functor.history/{_op_class(s, line)}-raises-{type(e).__name__}', key, ok=False,
+               message=f'{s.params}: {hist}: `{line}` raised {type(e).__name__}: {e}',
+               witness=_witness(prelude, body))
+      return
+  x = ns['x']
+  wit = lambda tail: _witness(prelude, 'import bounded.c18_functor as m\n' + body + tail)
+  # (a) what the functor reports.
+  exp_spec = set(named) | set(extras) | ({'args'} if varargs else set())
+  try:
+    got_spec = set(x.specified_args)
+  except Exception as e:  # pylint: disable=broad-except
+    got_spec = f'{type(e).__name__}: {e}'
+  rec.case(f'functor.specified_args/after[{opname}]', key,
+           ok=isinstance(got_spec, set) and got_spec - amb == exp_spec - amb,
+           message=f'{s.params}: {hist}; x.specified_args = {got_spec!r}, bound per history: {sorted(exp_spec)!r}',
+           witness=wit(f'assert set(x.specified_args) - {amb!r} == {exp_spec - amb!r}, x.specified_args\n'))
+  exp_args = {}
+  for nm in s.names:
+    exp_args[nm] = named[nm] if nm in named else s.defaults.get(nm, pg.MISSING_VALUE)
+  if s.va:
+    exp_args['args'] = list(varargs or [])
+  exp_args.update(extras)
+  try:
+    rep = init_args_of(x)
+  except Exception as e:  # pylint: disable=broad-except
+    rep = f'{type(e).__name__}: {e}'
+  shown = {k: ('MISSING' if v is pg.MISSING_VALUE else v) for k, v in exp_args.items()}
+  rec.case(f'functor.sym_init_args/after[{opname}]', key, ok=same_init_args(rep, exp_args),
+           message=f'{s.params}: {hist}; x.sym_init_args = {rep!r}, want {shown!r}',
+           witness=wit(f'e = {shown!r}\n'
+                       "e = {k: (pg.MISSING_VALUE if v == 'MISSING' else v) for k, v in e.items()}\n"
+                       'assert m.same_init_args(m.init_args_of(x), e), x.sym_init_args\n'))
+  # (b) called with nothing.
+  want = merge_call(f, s, named, extras, varargs, (), {}, False)
+  ok0 = True
+  if want is not None:
+    got = call(x)
+    ok0 = rec.case(f'functor.late-binding[{opname}]/{_vs(want, got)}', key, ok=agree(want, got),
+                   message=f'{s.params}: {hist}; x() -> {got!r}; Python semantics -> {want!r}',
+                   witness=wit(f'got = m.call(x)\nassert m.agree({want!r}, got), got\n'))
+  # (c) called with late arguments.
+  a2, k2, override = h['late']
+  late_names = set(k2) | set(s.pos[:len(a2)])
+  judged = override or h['ctor_override'] or not (late_names & amb)
+  eff_override = override or h['ctor_override']
+  want2 = merge_call(f, s, named, extras, varargs, a2, k2, eff_override) if judged else None
+  what = 'override' if eff_override else 'no-override'
+  dsrc = (_fmt_call(a2, k2) + (', override_args=True' if override else '')).lstrip(', ')
+  kw2 = dict(k2, **({'override_args': True} if override else {}))
+  ok2 = True
+  if want2 is not None and (a2 or k2):
+    got2 = call(lambda: x(*a2, **kw2))
+    ok2 = rec.case(f'functor.late-binding[{opname}]+late-call[{what}]/{_vs(want2, got2)}', key,
+                   ok=agree(want2, got2),
+                   message=f'{s.params}: {hist}; x({dsrc}) -> {got2!r}; Python semantics -> {want2!r}',
+                   witness=wit(f'got = m.call(lambda: x({dsrc}))\nassert m.agree({want2!r}, got), got\n'))
+  if not deep:
+    return
+  # (d) copies describe the same bound state.
+  for name, src in _roundtrips(x):
+    try:
+      y = eval(src, {'x': x, 'pg': pg})  # pylint: disable=eval-used
+    except Exception as e:  # pylint: disable=broad-except
+      rec.case(f'functor.late-binding[{opname}].{name}/copy-raises-{type(e).__name__}', key, ok=False,
+               message=f'{s.params}: {hist}; {src}: {type(e).__name__}: {e}',
+               witness=wit(f'{src}\n'))
+      continue
+    if 'clone' in name:
+      try:
+        ys = set(y.specified_args)
+      except Exception as e:  # pylint: disable=broad-except
+        ys = f'{type(e).__name__}: {e}'
+      rec.case(f'functor.specified_args/{name}-after[{opname}]', key,
+               ok=isinstance(ys, set) and ys - amb == exp_spec - amb,
+               message=f'{s.params}: {hist}; ({src}).specified_args = {ys!r}, bound per history: {sorted(exp_spec)!r}',
+               witness=wit(f'assert set(({src}).specified_args) - {amb!r} == {exp_spec - amb!r}\n'))
+    if want is not None and ok0:
+      got = call(y)
+      rec.case(f'functor.late-binding[{opname}].{name}/{_vs(want, got)}', key, ok=agree(want, got),
+               message=f'{s.params}: {hist}; ({src})() -> {got!r}; want {want!r}',
+               witness=wit(f'got = m.call({src})\nassert m.agree({want!r}, got), got\n'))
+    if want2 is not None and ok2 and (a2 or k2):
+      kw3 = dict(kw2)
+      d3 = dsrc
+      if h['ctor_override'] and name.startswith('json') and not override:
+        kw3['override_args'] = True          # a construction flag is not an argument
+        d3 = (dsrc + ', override_args=True').lstrip(', ')
+      got = call(lambda: y(*a2, **kw3))
+      rec.case(f'functor.two-stage.{name}[{what}]/{_vs(want2, got)}', key, ok=agree(want2, got),
+               message=f'{s.params}: {hist}; ({src})({d3}) -> {got!r}; want {want2!r}',
+               witness=wit(f'got = m.call(lambda: ({src})({d3}))\nassert m.agree({want2!r}, got), got\n'))
 
 
 def drv_functor_late_binding(tier, seed):
   quick = tier == 'quick'
+  nh = 10 if quick else 100
   rec = Recorder(
-      'C18', 'functors: arguments bound later by rebind / attribute assignment / del',
-      scope=('240 signatures; construct with a keyword subset, then rebind(**more) or setattr, '
-             'optionally del of a bound argument, then call with nothing; effective arguments = '
-             'last value written per name (del -> default); '
-             + ('12' if quick else '120') + ' seeded histories per signature; also under '
-             'pg.enable_type_check(False)'))
+      'C18', 'functors: arguments bound, re-bound and un-bound after construction',
+      scope=('240 signatures (+ ' + ('30 seeded' if quick else 'all 384') + ' with None / falsy '
+             'defaults), one way of symbolizing each (function wrappers and subclassed functors, '
+             'rotated by seed); history = construction with 0..n positionals (+ *args) and a keyword '
+             'subset (+ an extra keyword), then 1..3 operations from rebind(**several) / attribute '
+             'assignment / del of a bound name (incl. *args and extra keywords), values distinct ints '
+             'or None / falsy / equal-to-default; then: specified_args and sym_init_args vs the '
+             'names/values bound per history (del -> unbound -> default), call with nothing, call '
+             'with 0..2 late positionals + keyword subset with/without override (late value for a '
+             'bound name is an error without override, for an un-bound name it is not), and the same '
+             'on clone / deep clone / JSON copies; ' + str(nh) + ' seeded histories per signature; '
+             'also calls under pg.enable_type_check(False)'))
   r = rng(seed, 'c18-late')
-  kinds = list(FN_WRAPPERS)
-  for i, sig in enumerate(all_sigs()):
-    kind = kinds[(i + seed + 1) % len(kinds)]
-    s = Sig(sig.n, sig.ndef, sig.va, sig.kwo, sig.vk, annotated=True) if 'auto_typing' in kind else sig
-    built = try_build(rec, s, kind)
-    if built is None:
-      continue
-    f, w, prelude = built
-    names = s.names
-    if not names:
-      continue
-    for j in range(12 if quick else 120):
-      k1 = {n: 100 + t for t, n in enumerate(names) if r.random() < 0.5}
-      k2 = {n: 200 + t for t, n in enumerate(names) if r.random() < 0.5}
-      dele = r.choice(sorted(set(k1) | set(k2))) if (k1 or k2) and r.random() < 0.3 else None
-      via = r.choice(('rebind', 'setattr'))
-      eff = dict(k1, **k2)
-      if dele:
-        eff.pop(dele)
-      want = call(f, **eff)
-      lines = [f'x = W({_fmt_call((), k1)})']
-      if via == 'rebind':
-        if k2:
-          lines.append(f'x.rebind({_fmt_call((), k2)})')
-      else:
-        lines += [f'x.{n} = {v}' for n, v in k2.items()]
-      if dele:
-        lines.append(f'del x.{dele}')
-      body = '\n'.join(lines) + '\n'
+  fl = flavored_sigs()
+  if quick:
+    fl = _pick(fl, r, 30)
+  todo = [(i, sig, pick_kind(i, seed, sig, shift=1)) for i, sig in enumerate(all_sigs())]
+  todo += [(i, sig, pick_kind(i, seed, sig, kinds=UNTYPED_FUNCTOR_KINDS)) for i, sig in enumerate(fl)]
+  for i, sig, kind in todo:
+    s = sig_for(sig, kind)
+    hs = [_gen_history(r, s, kind) for _ in range(nh)] if (s.names or s.vk or s.va) else []
+    unchecked_calls = []
+    for j in range(0, nh, 3):
+      unchecked_calls.append(mk_args(r.randrange(s.n + 1), [n for n in s.names[s.n:] if r.random() < 0.7]
+                                     + (['z'] if r.random() < 0.3 else []), 10))
 
-      def run():
-        ns = {'W': w}
-        exec(body, ns)  # pylint: disable=exec-used
-        return ns['x']()
-      got = call(run)
-      rec.case(f'functor.late-binding[{via}' + ('+del' if dele else '')
-               + f']/{_vs(want, got)}', (s.id, kind, k1, k2, dele, via),
-               ok=agree(want, got),
-               message=f'{s.params}: {"; ".join(lines)}; x() -> {got!r}; f({_fmt_call((), eff)}) -> {want!r}',
-               witness=_witness(prelude, 'import bounded.c18_functor as m\n' + body
-                                + f'assert m.agree(m.call(F, {_fmt_call((), eff)}), m.call(x))\n'))
-      if j % 3 == 0:
-        a, k = mk_args(r.randrange(s.n + 1), [n for n in names[s.n:] if r.random() < 0.7]
-                       + (['z'] if r.random() < 0.3 else []), 10)
+    def routine(rc, s_, kind_, f, w, prelude, hs=hs, unchecked_calls=unchecked_calls):
+      for j, h in enumerate(hs):
+        _history_case(rc, s_, kind_, f, w, prelude, h, deep=(j % 3 == 0))
+      for a, k in unchecked_calls:
         want = call(f, *a, **k)
         argsrc = _fmt_call(a, k)
 
@@ -641,18 +1209,140 @@ def drv_functor_late_binding(tier, seed):
           with pg.enable_type_check(False):
             return w()(*a, **k)
         got = call(unchecked)
-        rec.case(f'functor.call-under-enable_type_check(False)/{_vs(want, got)}',
-                 (s.id, kind, a, tuple(k)), ok=agree(want, got),
-                 message=f'{s.params}: with pg.enable_type_check(False): W()({argsrc}) -> {got!r}; f({argsrc}) -> {want!r}',
-                 witness=_witness(prelude, 'import bounded.c18_functor as m\n'
-                                  'with pg.enable_type_check(False):\n'
-                                  f'  got = m.call(lambda: W()({argsrc}))\n'
-                                  f'assert m.agree(m.call(F, {argsrc}), got), got\n'))
+        rc.case(f'functor.call-under-enable_type_check(False)/{_vs(want, got)}',
+                (s_.id, kind_, a, tuple(k)), ok=agree(want, got),
+                message=f'{s_.params}: with pg.enable_type_check(False): W()({argsrc}) -> {got!r}; f({argsrc}) -> {want!r}',
+                witness=_witness(prelude, 'import bounded.c18_functor as m\n'
+                                 'with pg.enable_type_check(False):\n'
+                                 f'  got = m.call(lambda: W()({argsrc}))\n'
+                                 f'assert m.agree(m.call(F, {argsrc}), got), got\n'))
+    run_routine(rec, sig, kind, routine)
+  return rec.result()
+
+
+# ---------------------------------------------------------------------------
+# Argument values of every kind through every copy; re-entrant calls.
+# ---------------------------------------------------------------------------
+
+ARG_VALUES = [
+    ('None', None), ('bool', True), ('zero', 0), ('int', 7), ('float', 1.5), ('empty-str', ''),
+    ('str', 'x y'), ('empty-tuple', ()), ('tuple', (1, 2)), ('nested-tuple', (1, (2, (3,)))),
+    ('empty-list', []), ('list', [1, 2]), ('empty-dict', {}), ('dict', {'k': 1}),
+    ('nested', {'k': [1, (2, None)], 'l': []}),
+]
+
+_REC_SRC = {
+    'function': ('def g_{t}(n, tag="t"):\n'
+                 '  if n == 0: return (tag,)\n'
+                 '  sub = {call}(n - 1, tag + "x"{ov})\n'
+                 '  return (sub, n, tag)\n'),
+    'subclass': ('class G_{t}(pg.Functor):\n'
+                 '  n: Any\n'
+                 '  tag: Any = "t"\n'
+                 '  def _call(self):\n'
+                 '    if self.n == 0: return (self.tag,)\n'
+                 '    sub = self(self.n - 1, self.tag + "x", override_args=True)\n'
+                 '    return (sub, self.n, self.tag)\n'),
+}
+
+
+def _reentrant_prelude(kind):
+  t = ''.join(ch for ch in kind if ch.isalnum())
+  head = ('import pyglove as pg, sys, types, typing\n'
+          f"m_ = sys.modules.setdefault('{MOD}', types.ModuleType('{MOD}'))\n"
+          f"ns_ = {{'__name__': '{MOD}', 'pg': pg, 'Any': typing.Any, 'SELF': [None]}}\n"
+          + 'exec(' + repr(_REC_SRC['function'].format(t='py', call='g_py', ov='')) + ', ns_)\n'
+          "F = ns_['g_py']\n")
+  if kind == 'subclass':
+    return head + ('exec(' + repr(_REC_SRC['subclass'].format(t=t)) + ', ns_)\n'
+                   f"W = ns_['G_{t}']; m_.__dict__['G_{t}'] = W\n")
+  src = _REC_SRC['function'].format(t=t, call='SELF[0]', ov=', override_args=True')
+  return head + (f'exec({src!r}, ns_)\n'
+                 f"m_.__dict__['g_{t}'] = ns_['g_{t}']\n"
+                 f"W = {FN_WRAPPERS[kind].format(f='ns_[' + repr('g_' + t) + ']', spec='[]')}\n")
+
+
+def drv_functor_values_and_reentrancy(tier, seed):
+  del seed
+  rec = Recorder(
+      'C18', 'functors: argument values of every JSON-able kind through call / clone / JSON; re-entrant calls',
+      scope=('f(a, b=-2) as pg.functor, pg.symbolize and the two untyped subclassed functor styles; '
+             f'{len(ARG_VALUES)} value kinds (None, bool, 0, int, float, empty/non-empty str, tuple, '
+             'list, dict, nested) given positionally or by keyword, at construction or at call time, '
+             'then called directly and through clone / deep clone / JSON copies; a self-recursive '
+             'callable (depth 0..3) whose symbolic form calls the same functor object again with '
+             'overriding arguments, arguments bound at construction / supplied at call time / mixed, '
+             'and a following ordinary call'))
+  sig = Sig(2, 1, False, (), False)
+  plain_fail = set()
+  for kind in ('pg.functor', 'pg.symbolize', 'subclass(annotations)', 'subclass(pg.members)'):
+    built = try_build(rec, sig, kind)
+    if built is None:
+      continue
+    f, w, prelude = built
+    for label, v in ARG_VALUES:
+      for how, a, k in (('positional', (v,), {}), ('keyword', (1,), {'b': v})):
+        argsrc = _fmt_call(a, k)
+        want = call(f, *a, **k)
+        runs = [('supplied-at-call-time', f'W()({argsrc})')]
+        runs.append(('bound-at-construction', f'W({argsrc})()'))
+        runs += [(name, f'(lambda x: {src})(W({argsrc}))()') for name, src in _roundtrips(None)]
+        for op, expr in runs:
+          got = call(lambda: eval(expr, {'W': w, 'pg': pg}))  # pylint: disable=eval-used
+          cid = f'functor.{op}/argument-value:{label}/{_vs(want, got)}'
+          ok = agree(want, got)
+          if not ok:
+            if kind in SUBCLASS_KINDS and cid not in plain_fail:
+              cid = 'subclassed-' + cid
+            else:
+              plain_fail.add(cid)
+          rec.case(cid, (kind, label, how, op), ok=ok,
+                   message=f'{kind}: f({argsrc}) -> {want!r}; {expr} -> {got!r}',
+                   witness=_witness(prelude, 'import bounded.c18_functor as m\n'
+                                    f'assert m.agree(m.call(F, {argsrc}), m.call(lambda: {expr}))\n'))
+  plain_fail = set()
+  for kind in ('pg.functor', 'pg.symbolize', 'functor_class', 'subclass'):
+    prelude = _reentrant_prelude(kind)
+    ns = {}
+    try:
+      exec(prelude, ns)  # pylint: disable=exec-used
+    except Exception as e:  # pylint: disable=broad-except
+      rec.case(f'functor.symbolizing-a-valid-callable-fails/recursive[{kind}]', (kind,), ok=False,
+               message=f'{type(e).__name__}: {e}', witness=prelude)
+      continue
+    f, w = ns['F'], ns['W']
+    for depth in range(4):
+      for mode, csrc, dsrc in (('bound-at-construction', f'{depth}', ''),
+                               ('supplied-at-call-time', '', f'{depth}'),
+                               ('mixed', "tag='q'", f'{depth}')):
+        want = call(f, depth, **({'tag': 'q'} if mode == 'mixed' else {}))
+        body = f'x = W({csrc}); ns_["SELF"][0] = x\n'
+        env = {'W': w, 'ns_': ns['ns_']}
+        exec(body, env)  # pylint: disable=exec-used
+        x = env['x']
+        for nth in ('', 'repeated-'):
+          got = call(lambda: eval(f'x({dsrc})', {'x': x}))  # pylint: disable=eval-used
+          cls = 'depth=0' if depth == 0 else 'depth>0'
+          cid = f'functor.{nth}reentrant-call[{cls}]/{_vs(want, got)}'
+          ok = agree(want, got)
+          if not ok:
+            if kind == 'subclass' and cid not in plain_fail:
+              cid = 'subclassed-' + cid
+            else:
+              plain_fail.add(cid)
+          rec.case(cid, (kind, depth, mode, nth), ok=ok,
+                   message=(f'{kind}: g(n, tag="t") calls itself with (n - 1, tag + "x"); x = W({csrc}); '
+                            f'{nth}x({dsrc}) -> {got!r}; plain recursion -> {want!r}'),
+                   witness=prelude + 'import bounded.c18_functor as m\n' + body
+                   + (f'm.call(lambda: x({dsrc}))\n' if nth else '')
+                   + f'got = m.call(lambda: x({dsrc}))\nassert m.agree({want!r}, got), got\n')
+          if not ok:
+            break
   return rec.result()
 
 
 DRIVERS = [drv_functor_single_stage, drv_functor_two_stage, drv_functor_late_binding,
-           drv_class_wrappers]
+           drv_class_wrappers, drv_functor_values_and_reentrancy]
 
 
 def replay(rec):
